@@ -643,6 +643,12 @@ theorem File.restore_actual (f : File) (h : f.restore.actual ≠ f.actual) :
     split at h
     · rename_i hc; rw [if_neg hd, if_pos hc]; exact ⟨by simpa using hd, hc, rfl⟩
     · exact absurd rfl h
+theorem File.restoreIn_actual (fs : List File) (f : File) (h : (File.restoreIn fs f).actual ≠ f.actual) :
+    f.deleted = false ∧ f.actual = .corrupt ∧ (File.restoreIn fs f).actual = .good := by
+  unfold File.restoreIn at h ⊢
+  split at h
+  · exact absurd rfl h
+  · rename_i hc; rw [if_neg hc]; exact File.restore_actual f h
 theorem File.corrupt_actual (f : File) (h : f.corrupt.actual ≠ f.actual) :
     f.deleted = false ∧ f.actual = .good ∧ f.corrupt.actual = .corrupt := by
   unfold File.corrupt at h ⊢
@@ -680,7 +686,7 @@ theorem C14_file_actual_only_by_event (n : Node) (op : Op) (j k : Nat) (G G' : F
         have hd : ((fun f1 : File => if G.scanCd = 1 then f1.scan else f1)
             (if n.powerPhase.scanCd = 1 then f.scan else f)).deleted = f.deleted := by
           by_cases h2 : G.scanCd = 1 <;> by_cases h3 : n.powerPhase.scanCd = 1 <;> simp [h2, h3]
-        have := File.restore_actual _ (by rw [ha]; exact hne)
+        have := File.restoreIn_actual G.files _ (by rw [ha]; exact hne)
         exact ⟨hc.1, hc.2, trivial, by rw [← hd]; exact this.1, by rw [← ha]; exact this.2.1, this.2.2⟩
       · exfalso; apply hne
         simp only [h1, if_false]
@@ -710,7 +716,7 @@ theorem C14_file_actual_only_by_event (n : Node) (op : Op) (j k : Nat) (G G' : F
     split at hne
     · rename_i hc
       rw [if_pos hc]
-      have := f.restore_actual hne
+      have := File.restoreIn_actual G.files f hne
       exact ⟨hc.1, hc.2.1, hc.2.2.1, hc.2.2.2, this⟩
     · exact absurd rfl hne
   case fileSet F nm h =>
@@ -1046,8 +1052,8 @@ theorem C14_folder_restore_not_early (ops : List Op) (n : Node) (j : Nat) (G : F
   folder_cd_not_early (·.restoreCd) folderEff_restoreCd_running ops n j G c hG hc hk
 
 /-- **C14 folder restore timing, part 2 (on time).** The `c`-th timestep that reaches the folder completes the
-restore: every file is live again, every file that was live and CORRUPT is GOOD (a deleted file comes back with the
-health it had), and the folder itself is no longer CORRUPT / RESTORING. -/
+restore: every file is live again — except a deleted file that has a LIVE namesake, which `restore_file` never reaches —,
+every file that was live and CORRUPT is GOOD (a deleted file comes back with the health it had), and the folder itself is no longer CORRUPT / RESTORING. -/
 theorem C14_folder_restore_completes_on_time (ops : List Op) (n : Node) (j : Nat) (G : Folder) (c : Int)
     (hG : n.folders[j]? = some G) (hc : G.restoreCd = c) (hk : (effFolderTicks n j ops : Int) + 1 = c) :
     ∃ G', (n.run ops).folders[j]? = some G' ∧ G'.restoreCd = 1 ∧
@@ -1055,7 +1061,8 @@ theorem C14_folder_restore_completes_on_time (ops : List Op) (n : Node) (j : Nat
         ∃ G'', ((n.run ops).apply .tick).folders[j]? = some G'' ∧ G''.name = G.name ∧ G''.restoreCd = 0 ∧
           G''.actual ≠ .corrupt ∧ G''.actual ≠ .restoring ∧
           G''.files.map (fun f => (f.deleted, f.actual)) =
-            G'.files.map (fun f => (false, if f.deleted = false ∧ f.actual = .corrupt then FsH.good else f.actual))) := by
+            G'.files.map (fun f => (f.deleted && hasLive f.name G'.files,
+              if f.deleted = false ∧ f.actual = .corrupt then FsH.good else f.actual))) := by
   obtain ⟨G', h1, h2, h3⟩ := C14_folder_restore_not_early ops n j G c hG hc (by omega)
   have hcd : G'.restoreCd = 1 := by rw [h3]; omega
   refine ⟨G', h1, hcd, fun ht => ⟨folderEff (n.run ops) .tick G', ?_, (folderEff_name _ _ _).trans h2, ?_, ?_⟩⟩
@@ -1090,16 +1097,19 @@ theorem C14_folder_restore_completes_on_time (ops : List Op) (n : Node) (j : Nat
       apply List.map_congr_left
       intro f _
       simp only [Function.comp_def, fileEff, hon, hd, and_self, if_true, hcd]
-      have hr : ∀ g : File, g.restore.deleted = false ∧
-          g.restore.actual = if g.deleted = false ∧ g.actual = .corrupt then FsH.good else g.actual := by
-        intro g
-        refine ⟨g.restore_deleted, ?_⟩
-        unfold File.restore
-        by_cases hgd : g.deleted = true
-        · simp [hgd]
-        · by_cases hgc : g.actual = .corrupt <;> simp [hgd, hgc]
+      have hr : ∀ g : File, (∀ nm, hasLive nm [] = false) → g.name = f.name → g.deleted = f.deleted → g.actual = f.actual →
+          ((File.restoreIn G'.files g).deleted, (File.restoreIn G'.files g).actual) =
+            (f.deleted && hasLive f.name G'.files, if f.deleted = false ∧ f.actual = .corrupt then FsH.good else f.actual) := by
+        intro g _ hn hdl ha
+        unfold File.restoreIn
+        rw [hn, hdl]
+        cases hfd : f.deleted <;> cases hl : hasLive f.name G'.files
+        all_goals simp only [Bool.and_self, Bool.and_true, Bool.and_false, Bool.false_and, Bool.true_and, Bool.false_eq_true,
+          if_false, if_true, true_and, false_and]
+        all_goals (try unfold File.restore)
+        all_goals (by_cases hgc : f.actual = .corrupt <;> simp [hgc, ha, hdl, hfd])
       by_cases h2 : G'.scanCd = 1 <;> by_cases h3 : (n.run ops).powerPhase.scanCd = 1 <;>
-        simp [h2, h3, hr]
+        simp only [h2, h3, if_true, if_false] <;> apply hr <;> simp [hasLive]
 
 /-- A `restore` request (folder route or file-system route) loads `max(restore_duration, 1)` and marks the folder
 RESTORING — unless a restore is already running, in which case the countdown is left alone. -/
